@@ -1,9 +1,28 @@
-(** C08 — a render iterator yields exactly the frames its operation history dictates. *)
+(** C08 — a render iterator yields exactly the frames its operation history dictates.
+
+    Only statements, each closed by [exact <lemma>], and [Print Assumptions].
+
+    [Iter] (model/Iter.v) is the code model of [RenderIterator]: generator suspension
+    points, cache, stored padded size, render data.  [IterSpec] (model/IterSpec.v) is the
+    documented model: finalized?, number of the frame to be rendered next (INDEFINITE: the
+    pending seek), loop countdown, the four settings.  The renderable's [_render_] is the
+    parameter [render] (any state-passing function that returns a frame, raises
+    StopIteration or raises another exception); [n] is its frame count ([None] =
+    INDEFINITE), [term] the terminal size.
+
+    [trace s ops] lists, per operation of the history [ops], what it returned (frame /
+    StopIteration / ok / which error) and [iterator.loop] after it.
+
+    [refines c]: caching is off for this configuration, or the renderable is
+    deterministic ([render_det]; C09 is about that hypothesis). *)
 From Coq Require Import List ZArith Bool Lia.
 Import ListNotations.
-From TI Require Import model.Iter model.IterSpec proofs.IterProofs.
+From TI Require Import model.Iter model.IterSpec proofs.IterProofs proofs.IterProofs2
+     proofs.IterProofs3 proofs.IterProofs4 proofs.IterExamples.
 Open Scope Z_scope.
 
+(** for EVERY history: frames (number, duration, size, output, padding), countdown, errors
+    are those of the documented model *)
 Theorem C08_iter_refines_spec :
   forall RS render n term c rs0 s a ops,
     (cache_decision n (c_cache c) = false \/ render_det RS render) ->
@@ -11,3 +30,188 @@ Theorem C08_iter_refines_spec :
     trace RS render n term s ops = spec_trace RS render n term a ops.
 Proof. exact iter_refines_spec. Qed.
 Print Assumptions C08_iter_refines_spec.
+
+(** construction is refused exactly as documented (non-animated, loops = 0, cache <= 0,
+    incompatible render arguments) *)
+Theorem C08_mk_refines_spec :
+  forall RS n term c rs0 e,
+    mk RS n term c rs0 = inr e <-> spec_mk RS n term c rs0 = inr e.
+Proof. exact mk_refines_spec. Qed.
+Print Assumptions C08_mk_refines_spec.
+
+(** whatever the history so far, the continuation is the documented machine's, started
+    from the documented state [spec_run a ops] *)
+Theorem C08_iter_follows_spec_after :
+  forall RS render n term c rs0 s a ops ops',
+    refines RS render n c -> mk RS n term c rs0 = inl s -> spec_mk RS n term c rs0 = inl a ->
+    trace RS render n term s (ops ++ ops') =
+    trace RS render n term s ops ++ spec_trace RS render n term (spec_run RS render n term a ops) ops'.
+Proof. exact iter_follows_spec_after. Qed.
+Print Assumptions C08_iter_follows_spec_after.
+
+(** absent seeks (and failures): exactly [loops * n] frames, numbered [0 .. n-1]
+    cyclically, the countdown showing [loops, loops-1, .., 1]; then Stop forever with the
+    countdown at 0.  ([frame_of c v j]: frame [j] rendered and padded under [c]'s settings) *)
+Theorem C08_frames_without_seek :
+  forall RS render term F,
+    (forall r o w sz d a, fst (render r o w sz d a) = ROk (F o w sz d a)) ->
+    forall kn c rs0 s L m,
+      mk RS (Some (Z.of_nat kn)) term c rs0 = inl s ->
+      c_loops c = Z.of_nat (S L) ->
+      exists v, c_args c = Some v /\
+        trace RS render (Some (Z.of_nat kn)) term s (repeat Next (S L * kn + m)) =
+        countdown_passes kn (frame_of term F c v) (S L) ++ repeat (OStop, 0) m.
+Proof. exact frames_without_seek. Qed.
+Print Assumptions C08_frames_without_seek.
+
+Theorem C08_frames_without_seek_infinite :
+  forall RS render term F,
+    (forall r o w sz d a, fst (render r o w sz d a) = ROk (F o w sz d a)) ->
+    forall kn c rs0 s p,
+      mk RS (Some (Z.of_nat kn)) term c rs0 = inl s ->
+      c_loops c < 0 ->
+      exists v, c_args c = Some v /\
+        trace RS render (Some (Z.of_nat kn)) term s (repeat Next (p * kn)) =
+        concat (repeat (map (fun j => (frame_of term F c v (Z.of_nat j), c_loops c)) (seq 0 kn)) p).
+Proof. exact frames_without_seek_infinite. Qed.
+Print Assumptions C08_frames_without_seek_infinite.
+
+(** a seek takes effect at the next render and does not consume a loop: after any
+    history that leaves the iterator open, an in-range seek designating frame [t]
+    returns normally, and the next [next] renders frame [t] with the current settings,
+    the countdown unchanged through both — including at the end-of-pass boundary *)
+Theorem C08_seek_keeps_loop :
+  forall RS render n term c rs0 s a ops k off w t,
+    refines RS render n c -> mk RS n term c rs0 = inl s -> spec_mk RS n term c rs0 = inl a ->
+    n = Some k ->
+    let a' := spec_run RS render n term a ops in
+    a_closed a' = false -> seek_target k (a_next a') off w = Some t ->
+    trace RS render n term s (ops ++ [Seek off w; Next]) =
+    trace RS render n term s ops ++ [(OOk, a_loop a'); (render_outcome RS render n a' t WStart, a_loop a')].
+Proof. exact seek_keeps_loop. Qed.
+Print Assumptions C08_seek_keeps_loop.
+
+(** the documented seek table *)
+Theorem C08_seek_target_spec :
+  forall k nx off w t,
+    seek_target k nx off w = Some t <->
+    t = match w with WStart => off | WCurrent => nx + off | WEnd => k - 1 + off end /\ 0 <= t < k.
+Proof. exact seek_target_spec. Qed.
+Print Assumptions C08_seek_target_spec.
+
+(** CURRENT is relative to the frame to be rendered next; out of range: ValueError, and
+    the documented state is unchanged *)
+Theorem C08_seek_current_relative_to_next :
+  forall RS render n term c rs0 s a ops k off,
+    refines RS render n c -> mk RS n term c rs0 = inl s -> spec_mk RS n term c rs0 = inl a ->
+    n = Some k ->
+    let a' := spec_run RS render n term a ops in
+    a_closed a' = false ->
+    (0 <= a_next a' + off < k ->
+     trace RS render n term s (ops ++ [Seek off WCurrent; Next]) =
+     trace RS render n term s ops ++
+       [(OOk, a_loop a'); (render_outcome RS render n a' (a_next a' + off) WStart, a_loop a')]) /\
+    (~ 0 <= a_next a' + off < k ->
+     trace RS render n term s (ops ++ [Seek off WCurrent]) =
+     trace RS render n term s ops ++ [(OErr EValue, a_loop a')] /\
+     spec_run RS render n term a (ops ++ [Seek off WCurrent]) = a').
+Proof. exact seek_current_relative_to_next. Qed.
+Print Assumptions C08_seek_current_relative_to_next.
+
+(** "the frame to be rendered next" is the one after the frame rendered last, or the
+    one set by the latest seek *)
+Theorem C08_next_frame_number :
+  forall RS render n term (a : astate RS) k,
+    n = Some k -> a_closed a = false ->
+    (forall f, snd (spec_step RS render n term a Next) = OFrame f ->
+               a_next (fst (spec_step RS render n term a Next)) = next_frame RS n a + 1) /\
+    (forall off w t, seek_target k (a_next a) off w = Some t ->
+               a_next (fst (spec_step RS render n term a (Seek off w))) = t).
+Proof. exact next_frame_number. Qed.
+Print Assumptions C08_next_frame_number.
+
+(** every setting applies from the next rendered frame: the setter itself yields nothing,
+    the next frame has the number it would have had anyway and is rendered / padded with
+    the new value ([with_setting]: the documented state with that one setting replaced;
+    relative paddings resolved) *)
+Theorem C08_settings_apply_from_next_frame :
+  forall RS render n term c rs0 s a ops o a1,
+    refines RS render n c -> mk RS n term c rs0 = inl s -> spec_mk RS n term c rs0 = inl a ->
+    let a' := spec_run RS render n term a ops in
+    a_closed a' = false -> with_setting RS term a' o = Some a1 ->
+    (wraps RS n a' && (next_loop RS n a' =? 0)) = false ->
+    map fst (trace RS render n term s (ops ++ [o; Next])) =
+    map fst (trace RS render n term s ops) ++
+      [OOk; render_outcome RS render n a1 (next_frame RS n a')
+                           (match n with Some _ => WStart | None => a_wh a' end)].
+Proof. exact settings_apply_from_next_frame. Qed.
+Print Assumptions C08_settings_apply_from_next_frame.
+
+(** rejected operations (out-of-range seek, bad duration, incompatible arguments, anything
+    on a finalized iterator) leave the WHOLE state of the code model unchanged *)
+Theorem C08_rejected_op_no_change :
+  forall RS render n term (s : state RS) o e,
+    o <> Next -> snd (step RS render n term s o) = OErr e -> fst (step RS render n term s o) = s.
+Proof. exact rejected_op_no_change. Qed.
+Print Assumptions C08_rejected_op_no_change.
+
+Theorem C08_seek_rejected_iff_out_of_range :
+  forall RS render n term (s : state RS) off w k,
+    n = Some k -> closed s = false ->
+    (snd (step RS render n term s (Seek off w)) = OErr EValue <->
+     ~ (0 <= match w with WStart => off | WCurrent => fo (rd s) + off | WEnd => k - 1 + off end < k)).
+Proof. exact seek_rejected_iff_out_of_range. Qed.
+Print Assumptions C08_seek_rejected_iff_out_of_range.
+
+(** on a finalized iterator: next stops, close is a no-op, every control operation raises
+    FinalizedIteratorError; nothing changes *)
+Theorem C08_closed_ops_raise :
+  forall RS render n term (s : state RS) o,
+    closed s = true ->
+    step RS render n term s o =
+    (s, match o with Next => OStop | Close | Drop => OOk | _ => OErr EFinalized end).
+Proof. exact closed_ops_raise. Qed.
+Print Assumptions C08_closed_ops_raise.
+
+(** INDEFINITE sources: of several seeks between two renders only the last counts; the
+    next render is handed it; the render after that is handed none ([0, CURRENT]) *)
+Theorem C08_indefinite_seek_delivered_once :
+  forall RS render n term c rs0 s a ops off0 w0 off w,
+    mk RS n term c rs0 = inl s -> spec_mk RS n term c rs0 = inl a -> n = None ->
+    let a' := spec_run RS render n term a ops in
+    a_closed a' = false -> indefinite_seek_ok off0 w0 = true -> indefinite_seek_ok off w = true ->
+    map fst (trace RS render n term s (ops ++ [Seek off0 w0; Seek off w; Next; Next])) =
+    map fst (trace RS render n term s ops) ++ [OOk; OOk] ++ two_renders RS render n a' off w.
+Proof. exact indefinite_seek_delivered_once. Qed.
+Print Assumptions C08_indefinite_seek_delivered_once.
+
+(** [iterator.loop] is the documented countdown *)
+Theorem C08_loop_countdown :
+  forall RS render n term c rs0 s a ops k,
+    refines RS render n c -> mk RS n term c rs0 = inl s -> spec_mk RS n term c rs0 = inl a ->
+    n = Some k ->
+    let a' := spec_run RS render n term a ops in
+    pub_loop (run RS render n term s ops) = a_loop a' /\
+    a_loop a = c_loops c /\
+    (forall o, o <> Next -> a_loop (fst (spec_step RS render n term a' o)) = a_loop a') /\
+    (a_closed a' = false ->
+     a_loop (fst (spec_step RS render n term a' Next)) =
+     if (k <=? a_next a') && (0 <? a_loop a') then a_loop a' - 1 else a_loop a') /\
+    (a_closed a' = false -> a_loop a' <> 0) /\
+    (a_closed a' = false -> (k <=? a_next a') && (a_loop a' =? 1) = true ->
+     snd (spec_step RS render n term a' Next) = OStop /\
+     a_loop (fst (spec_step RS render n term a' Next)) = 0).
+Proof. exact loop_countdown. Qed.
+Print Assumptions C08_loop_countdown.
+
+Theorem C08_loop_negative_forever :
+  forall RS render n term k, n = Some k -> forall ops (a : astate RS),
+    a_loop a < 0 -> a_loop (spec_run RS render n term a ops) = a_loop a.
+Proof. exact loop_negative_forever. Qed.
+Print Assumptions C08_loop_negative_forever.
+
+(** the iterator never moves the renderable's own current frame *)
+Theorem C08_renderable_frame_untouched :
+  forall RS render n term ops (s : state RS), r_frame (run RS render n term s ops) = r_frame s.
+Proof. exact renderable_frame_untouched. Qed.
+Print Assumptions C08_renderable_frame_untouched.
